@@ -127,12 +127,21 @@ impl<'tcx> Dumper<'tcx> {
             },
             other => format!("{other:?}"),
         };
-        J::Obj(vec![
+        let mut o = vec![
             ("file", s(file)),
             ("line", n(lo.line)),
             ("col", n(lo.col.0 + 1)),
             ("exp", J::Bool(exp)),
-        ])
+        ];
+        if exp {
+            // innermost expansion kind and the outermost macro (the one written in user code)
+            let ed = sp.ctxt().outer_expn_data();
+            o.push(("expk", s(format!("{:?}", ed.kind))));
+            if let Some(last) = sp.macro_backtrace().last() {
+                o.push(("outer", s(format!("{:?}", last.kind))));
+            }
+        }
+        J::Obj(o)
     }
 
     fn ty(&mut self, t: Ty<'tcx>) -> J {
@@ -325,6 +334,36 @@ impl<'tcx> Dumper<'tcx> {
         }
         // string literals are useful for path-name facts ("LOCK", "index", ...)
         if let TyKind::Ref(_, inner, _) = t.kind() {
+            let is_bytes = match inner.kind() {
+                TyKind::Array(e, _) | TyKind::Slice(e) => matches!(e.kind(), TyKind::Uint(ty::UintTy::U8)),
+                _ => false,
+            };
+            if is_bytes {
+                if let Ok(val) = c.eval(tcx, env, rustc_span::DUMMY_SP) {
+                    match val {
+                        mir::ConstValue::Slice { .. } => {
+                            if let Some(bytes) = val.try_get_slice_bytes_for_diagnostics(tcx) {
+                                o.push(("bytes", s(String::from_utf8_lossy(bytes).to_string())));
+                            }
+                        }
+                        mir::ConstValue::Scalar(rustc_middle::mir::interpret::Scalar::Ptr(ptr, _)) => {
+                            let (prov, off) = ptr.into_raw_parts();
+                            if let Some(rustc_middle::mir::interpret::GlobalAlloc::Memory(alloc)) =
+                                tcx.try_get_global_alloc(prov.alloc_id())
+                            {
+                                let a = alloc.inner();
+                                let len = a.len();
+                                let start = off.bytes_usize();
+                                if start <= len {
+                                    let bytes = a.inspect_with_uninit_and_ptr_outside_interpreter(start..len);
+                                    o.push(("bytes", s(String::from_utf8_lossy(bytes).to_string())));
+                                }
+                            }
+                        }
+                        _ => {}
+                    }
+                }
+            }
             if inner.is_str() {
                 if let Const::Val(val, _) = c {
                     if let Some(bytes) = val.try_get_slice_bytes_for_diagnostics(tcx) {
@@ -594,6 +633,11 @@ impl<'tcx> Dumper<'tcx> {
                                 .lookup_char_pos(st.source_info.span.source_callsite().lo())
                                 .line)),
                             ("exp", J::Bool(st.source_info.span.from_expansion())),
+                            ("expk", if st.source_info.span.from_expansion() {
+                                s(format!("{:?}", st.source_info.span.ctxt().outer_expn_data().kind))
+                            } else {
+                                J::Null
+                            }),
                         ]));
                     }
                     StatementKind::SetDiscriminant { place, variant_index } => {
